@@ -179,6 +179,7 @@ def run(chk):
     from rules import c07
     sub = Check("C07", chk.tier, chk.seed)
     c07.run(sub)
+    chk.absorb(sub)
     nsh = 0
     for o in sub.obls:
         if o["rule"].startswith("C07-D1."):
@@ -233,6 +234,7 @@ def run(chk):
     from rules import c09
     sub9 = Check("C09", chk.tier, chk.seed)
     c09.expand_rules(sub9, db)
+    chk.absorb(sub9)
     n6 = 0
     for o in sub9.obls:
         if o["rule"] == "C09-D3.expand":
